@@ -55,14 +55,17 @@ func HashName(label string, ha uint8, iter uint16, salt string) string {
 // Cover returns true if a name is covered by the NSEC3 record.
 func (rr *NSEC3) Cover(name string) bool {
 	nameHash := HashName(name, rr.Hash, rr.Iterations, rr.Salt)
-	owner := strings.ToUpper(rr.Hdr.Name)
+	// Only the hash label is put in upper case (base32hex): IsSubDomain folds
+	// the ASCII letters itself, strings.ToUpper would rewrite raw octets >= 0x80
+	// of the zone name as well.
+	owner := rr.Hdr.Name
 	labelIndices := Split(owner)
 	if len(labelIndices) < 2 {
 		return false
 	}
-	ownerHash := owner[:labelIndices[1]-1]
+	ownerHash := strings.ToUpper(owner[:labelIndices[1]-1])
 	ownerZone := owner[labelIndices[1]:]
-	if !IsSubDomain(ownerZone, strings.ToUpper(name)) { // name is outside owner zone
+	if !IsSubDomain(ownerZone, name) { // name is outside owner zone
 		return false
 	}
 
@@ -95,14 +98,17 @@ func (rr *NSEC3) Cover(name string) bool {
 // Match returns true if a name matches the NSEC3 record
 func (rr *NSEC3) Match(name string) bool {
 	nameHash := HashName(name, rr.Hash, rr.Iterations, rr.Salt)
-	owner := strings.ToUpper(rr.Hdr.Name)
+	// Only the hash label is put in upper case (base32hex): IsSubDomain folds
+	// the ASCII letters itself, strings.ToUpper would rewrite raw octets >= 0x80
+	// of the zone name as well.
+	owner := rr.Hdr.Name
 	labelIndices := Split(owner)
 	if len(labelIndices) < 2 {
 		return false
 	}
-	ownerHash := owner[:labelIndices[1]-1]
+	ownerHash := strings.ToUpper(owner[:labelIndices[1]-1])
 	ownerZone := owner[labelIndices[1]:]
-	if !IsSubDomain(ownerZone, strings.ToUpper(name)) { // name is outside owner zone
+	if !IsSubDomain(ownerZone, name) { // name is outside owner zone
 		return false
 	}
 	if ownerHash == nameHash {
